@@ -38,8 +38,7 @@ theorem HcInv.stepFinal {s s' : State F} (h : HcInv s) (now : Nat) (hps : s'.ps 
     (htb : s'.timeBase = s.timeBase) (htl : s'.timeLastFlushed = some now)
     (hsync : s'.syncTimeoutBase = s.syncTimeoutBase) (hmono : s.nowMs ≤ s'.nowMs)
     (hnow : s'.nowMs = (now - s.timeBase) / 1000000) (hfq : WInv s'.fq)
-    (hfqt : FqTime s'.fq s'.nowMs) (hrate : RateInv s'.rate s'.nowMs)
-    (hrmax : s'.rate.maxSendRate < 2^31) : HcInv s' where
+    (hfqt : FqTime s'.fq s'.nowMs) (hrate : RateInv s'.rate s'.nowMs) : HcInv s' where
   ps := by rw [hps]; exact h.ps
   pok := by rw [hps]; exact h.pok
   uid := by rw [hps]; exact h.uid
@@ -49,7 +48,6 @@ theorem HcInv.stepFinal {s s' : State F} (h : HcInv s) (now : Nat) (hps : s'.ps 
   fqt := hfqt
   pr := by rw [hpr]; exact h.pr
   rate := hrate
-  rmax := hrmax
   sync := by rw [hsync]; exact Nat.le_trans h.sync hmono
   clock := by unfold lastNow; rw [htl, htb, hnow]; rfl
 
@@ -63,8 +61,8 @@ structure StepFns (ops : FloatOps F)
   gf_ok : ∀ fq t, WInv fq → FqTime fq t → ∃ fq' fb, gf fq t = .ok (fq', fb) ∧ WInv fq' ∧ FqTime fq' t ∧
     (∀ f, fb = some f → f.lossRate = ops.lossRate (fq.intervals.map (·.length))) ∧
     fq'.intervals = fq.intervals
-  rs_ok : ∀ r t fb, RateInv r t → r.maxSendRate < 2^31 → ∃ r' reset, rs r t fb = .ok (r', reset) ∧
-    RateInv r' t ∧ r'.maxSendRate = r.maxSendRate ∧
+  rs_ok : ∀ r t fb, RateInv r t → ∃ r' reset, rs r t fb = .ok (r', reset) ∧
+    RateInv r' t ∧
     (∀ p, reset = some p → ∃ f, fb = some f ∧ ops.gt f.lossRate r.prevLossRate = true)
   rl_ok : ∀ fq p t, fq.intervals ≠ [] → WInv fq → FqTime fq t →
     ∃ fq', rl fq p = .ok fq' ∧ WInv fq' ∧ FqTime fq' t
@@ -80,9 +78,9 @@ theorem stepFns_model (ops : FloatOps F) (hconv : BisectConverges ops) :
     obtain ⟨fq', fb, he, ht', hl, hi⟩ := FrameQ.getFeedback_ok ops fq t ht
     exact ⟨fq', fb, he, FrameQ.WInv_feedback ops fq fq' t fb hw he, ht', hl, hi⟩
   rs_ok := by
-    intro r t fb hr hm
+    intro r t fb hr
     obtain ⟨⟨r', reset⟩, he⟩ := Rate.step_notrap_conv fb hconv hr
-    refine ⟨r', reset, he, Rate.RateInv_step hr hm he, Rate.step_maxSendRate he, ?_⟩
+    refine ⟨r', reset, he, Rate.RateInv_step hr he, ?_⟩
     intro p hp
     subst hp
     cases Rate.step_ok_cases he with
@@ -120,14 +118,14 @@ theorem stepP_ok (ops : FloatOps F) (hloss : LossOk ops)
   rw [he2]
   simp only []
   rw [k10]
-  obtain ⟨r', reset, he3, hr3, hm3, hreset⟩ := hf.rs_ok s.rate nowMs fb (h.rate.mono hmono) h.rmax
+  obtain ⟨r', reset, he3, hr3, hreset⟩ := hf.rs_ok s.rate nowMs fb (h.rate.mono hmono)
   rw [he3]
   simp only []
   have hfinal : ∀ fqX : FrameQ.State, WInv fqX → FqTime fqX nowMs →
       HcInv ({ ({ fillFlushAlloc ops ({ s with nowMs := nowMs, rttMs := s.rate.rttMs.getD INITIAL_RTT_ESTIMATE_MS, rtoMs := s.rate.rtoMs.getD INITIAL_RTO_ESTIMATE_MS, fq := fq1 } : State F) now with flushId := w (fillFlushAlloc ops ({ s with nowMs := nowMs, rttMs := s.rate.rttMs.getD INITIAL_RTT_ESTIMATE_MS, rtoMs := s.rate.rtoMs.getD INITIAL_RTO_ESTIMATE_MS, fq := fq1 } : State F) now).flushId 1 } : State F) with fq := fqX, rate := r' } : State F) ∧
       lastNow ({ ({ fillFlushAlloc ops ({ s with nowMs := nowMs, rttMs := s.rate.rttMs.getD INITIAL_RTT_ESTIMATE_MS, rtoMs := s.rate.rtoMs.getD INITIAL_RTO_ESTIMATE_MS, fq := fq1 } : State F) now with flushId := w (fillFlushAlloc ops ({ s with nowMs := nowMs, rttMs := s.rate.rttMs.getD INITIAL_RTT_ESTIMATE_MS, rtoMs := s.rate.rtoMs.getD INITIAL_RTO_ESTIMATE_MS, fq := fq1 } : State F) now).flushId 1 } : State F) with fq := fqX, rate := r' } : State F) = now := by
     intro fqX hwX htX
-    refine ⟨h.stepFinal now k1 k2 k3 k4 k5 k6 k7 ?_ ?_ hwX ?_ ?_ ?_, ?_⟩
+    refine ⟨h.stepFinal now k1 k2 k3 k4 k5 k6 k7 ?_ ?_ hwX ?_ ?_, ?_⟩
     · simp only []
       rw [k8]; exact hmono
     · simp only []
@@ -136,8 +134,6 @@ theorem stepP_ok (ops : FloatOps F) (hloss : LossOk ops)
       rw [k8]; exact htX
     · simp only []
       rw [k8]; exact hr3
-    · simp only []
-      rw [hm3]; exact h.rmax
     · unfold lastNow
       simp only []
       rw [k6]; rfl
